@@ -63,7 +63,8 @@ def fresh_types():
     NT = type('NTc', (namedtuple('NTcBase', ['a', 'b']),), {'__slots__': ()})
     P = type('Pc', (), {})
     Q = type('Qc', (), {})
-    return dict(TC=TC, NT=NT, P=P, Q=Q)
+    R = type('Rc', (), {})
+    return dict(TC=TC, NT=NT, P=P, Q=Q, R=R)
 
 
 def _fl(o):
@@ -98,6 +99,10 @@ def build_ops(names, scen, seed):  # noqa: C901
     kw = dict(is_leaf=c15.pred, none_is_leaf=False, namespace=c['ns'])
     # a class registered up-front (for 'unreg') and a tree containing instances of Q (for the overlap op)
     optree.register_pytree_node(T['P'], _fl, _un, namespace=NSC)
+    optree.register_pytree_node(T['R'], _fl, _un, namespace=NSC)
+    r1, r2, r3 = T['R'](), T['R'](), T['R']()
+    c['rtree'] = ({'a': r1, 'b': [U.Leaf('y')]}, [r2, (r3,)])
+    c['robjs'] = (r1, r2, r3)
     q1, q2, q3 = T['Q'](), T['Q'](), T['Q']()
     c['qtree'] = [q1, {'a': q2, 'b': [U.Leaf('z')]}, (q3,)]
     c['qobjs'] = (q1, q2, q3)
@@ -145,6 +150,8 @@ def build_ops(names, scen, seed):  # noqa: C901
         'reg-same-meta-b': lambda: reg(T['TC'], NSC, 'same-meta', _fl2),
         'reg-q': lambda: reg(T['Q'], NSC),
         'flatten-q': lambda: flatten_q(),
+        'unreg-r': lambda: unreg(T['R'], NSC),
+        'flatten-r': lambda: flatten_q('rtree', 'robjs', 'flatten-r'),
         'consume-a': consume('a'),
         'consume-b': consume('b'),
         'classify': lambda: (optree.is_namedtuple_class(T['TC']), optree.is_structseq_class(T['TC']), optree.is_namedtuple_class(T['NT'])),
@@ -168,11 +175,11 @@ def build_ops(names, scen, seed):  # noqa: C901
         except ValueError:
             return 'ValueError'
 
-    def flatten_q():
-        leaves, spec = optree.tree_flatten(c['qtree'], is_leaf=c15.pred, namespace=NSC)
-        # per Q node: old (leaf) or new (custom node flattened with the registration's function)
-        kinds = tuple('old' if any(x is q for x in leaves) else 'new' for q in c['qobjs'])
-        return ('flatten-q', kinds, len(leaves), spec.num_leaves)
+    def flatten_q(tree='qtree', objs='qobjs', tag='flatten-q'):
+        leaves, spec = optree.tree_flatten(c[tree], is_leaf=c15.pred, namespace=NSC)
+        # per node of the (un)registered type: a leaf (not registered at that moment) or a custom node flattened with the registration's function
+        kinds = tuple('old' if any(x is q for x in leaves) else 'new' for q in c[objs])
+        return (tag, kinds, len(leaves), spec.num_leaves)
 
     if 'consume-a' in names or 'consume-b' in names:
         c['shared_iter'] = optree.tree_iter(c['tree'], **kw)
@@ -203,7 +210,7 @@ def all_pairs():
         for a in ('flatten', 'flatten_with_path', 'iter', 'unflatten', 'map', 'pickle', 'eq', 'flatten_up_to', 'classify'):
             pairs.append((r, a))
     pairs += [('reg-nt', 'reg-meta'), ('reg-nt', 'unreg'), ('reg-meta', 'unreg'), ('reg-same-a', 'reg-same-b'), ('reg-same-nt-a', 'reg-same-nt-b'), ('reg-same-meta-a', 'reg-same-meta-b'),
-              ('reg-q', 'flatten-q'), ('consume-a', 'consume-b')]
+              ('reg-q', 'flatten-q'), ('unreg-r', 'flatten-r'), ('consume-a', 'consume-b')]
     return pairs
 
 
@@ -213,7 +220,7 @@ def triples(rng, n):
     for _ in range(n):
         t = tuple(rng.sample(pool_, 3))
         out.append(t)
-    out += [('reg-same-a', 'reg-same-b', 'flatten'), ('reg-same-nt-a', 'reg-same-nt-b', 'flatten'), ('reg-same-meta-a', 'reg-same-meta-b', 'classify'), ('consume-a', 'consume-b', 'hash'), ('reg-q', 'flatten-q', 'reg-nt')]
+    out += [('reg-same-a', 'reg-same-b', 'flatten'), ('reg-same-nt-a', 'reg-same-nt-b', 'flatten'), ('reg-same-meta-a', 'reg-same-meta-b', 'classify'), ('consume-a', 'consume-b', 'hash'), ('reg-q', 'flatten-q', 'reg-nt'), ('unreg-r', 'flatten-r', 'flatten'), ('unreg-r', 'flatten-r', 'reg-q')]
     return out
 
 
@@ -263,12 +270,19 @@ def check_schedule(sink, s, c, names, solo, ident):  # noqa: C901
         sink.check(u[0] == 'unregistered' and u[1] != 'unregistered' and optree.tree_structure(make_inst(cls), namespace=NSC).kind != optree.PyTreeKind.CUSTOM,
                    f'same-registration-race/unregister-once/{cls_key}', 'after the race the type is registered exactly once (one unregister removes it)', jid, u)
         sink.count(f'same-registration-races:{cls_key}')
-    if 'flatten-q' in names:
-        r = s.results[names.index('flatten-q')]
-        ok = r[0] == 'ok' and r[1][0] == 'flatten-q' and all(k in ('old', 'new') for k in r[1][1]) and r[1][2] == r[1][3]
-        sink.check(ok, 'flatten-overlapping-registration', 'a flatten overlapping a registry change sees, per node, the old or the new registration - never a torn one', jid, repr(r))
+    for fname, what in (('flatten-q', 'registration'), ('flatten-r', 'unregistration')):
+        if fname not in names:
+            continue
+        r = s.results[names.index(fname)]
+        ok = r[0] == 'ok' and r[1][0] == fname and all(k in ('old', 'new') for k in r[1][1]) and r[1][2] == r[1][3]
+        sink.check(ok, f'flatten-overlapping-{what}', 'a flatten overlapping a registry change sees, per node, the old or the new registration - never a torn one', jid, repr(r))
         if ok:
-            sink.count('overlap-kinds:' + ''.join(k[0] for k in r[1][1]))
+            sink.count(f'overlap-kinds:{what}:' + ''.join(k[0] for k in r[1][1]))
+    if 'unreg-r' in names:
+        r = s.results[names.index('unreg-r')]
+        sink.check(r == ('ok', 'unregistered'), 'unregistration-failed/unreg-r', 'unregistering a registered type succeeds', jid, repr(r))
+        st = optree.tree_structure(c['T']['R'](), namespace=NSC)
+        sink.check(st.is_leaf() and optree.register_pytree_node.get(c['T']['R'], namespace=NSC) is None, 'unregistration/final-registry', 'after the unregistration both views agree that the type is gone', jid, repr(st))
     if 'consume-a' in names:
         ra, rb = s.results[names.index('consume-a')], s.results[names.index('consume-b')]
         ok = ra[0] == 'ok' and rb[0] == 'ok'
